@@ -43,7 +43,7 @@ func (c *Ctx) callExternal(fr *Frame, st *State, reach, name string, pos token.P
 		// permutes the argument slice in place
 		if sl, ok := fn.Params[0].Type().Underlying().(*types.Slice); ok {
 			es := c.sorts.Of(sl.Elem())
-			an := c.sorts.ElemArray(es)
+			an := c.sorts.ElemArrayT(sl.Elem())
 			a := c.arr(st, an, es)
 			s := c.term(args[0])
 			c.frameCheckRef(fr, "(s_arr "+s+")", "sort", st, reach, pos)
@@ -81,7 +81,7 @@ func (c *Ctx) callExternal(fr *Frame, st *State, reach, name string, pos token.P
 		}
 		if sl, ok := p.Type().Underlying().(*types.Slice); ok && externalWritesArg(full, i) {
 			es := c.sorts.Of(sl.Elem())
-			an := c.sorts.ElemArray(es)
+			an := c.sorts.ElemArrayT(sl.Elem())
 			a := c.arr(st, an, es)
 			s := c.term(args[i])
 			c.setArr(st, an, es, fmt.Sprintf("(store %s (s_arr %s) %s)", a, s, c.havoc("extw", "(Array Int "+es+")")))
